@@ -170,8 +170,18 @@ struct World {
         PoolModel& pm = *pools[(size_t)h[i].pool];
         size_t n = gen_size(s, pm);
         size_t before = ledger().live.size();
+        // one request in twelve meets a base allocator that refuses its next request: a null result is then legitimate, and
+        // it must leave everything handed out so far, and the accounting, untouched
+        bool refuse = s.coin(1, 12);
+        uint64_t r0 = ledger().refusals;
+        if (refuse) ledger().fail_budget = 1;
         uint8_t* p = (uint8_t*)h[i].a->Malloc(n);
+        ledger().fail_budget = 0;
         if (n == 0) return p ? "!Malloc(0) returned a block" : "Malloc(0)";
+        if (!p && ledger().refusals > r0) {
+          ev("base-refusal");
+          return "Malloc(" + std::to_string(n) + ") refused by the base allocator";
+        }
         if (!p) return "!Malloc(" + std::to_string(n) + ") returned null";
         std::string m = check_new_block(pm, p, n, nullptr);
         if (!m.empty()) return "!Malloc(" + std::to_string(n) + "): " + m;
@@ -213,7 +223,17 @@ struct World {
           default: n = 0; break;
         }
         size_t room = room_after(pm, old);
+        bool refuse = s.coin(1, 8);
+        uint64_t r0 = ledger().refusals;
+        if (refuse) ledger().fail_budget = 1;
         uint8_t* p = (uint8_t*)h[i].a->Realloc(old.p, old.size, n);
+        ledger().fail_budget = 0;
+        if (n != 0 && !p && ledger().refusals > r0) {
+          // the caller still owns the old block: nothing may have changed (verified after the step like after every step)
+          ev("base-refusal");
+          ev("base-refusal-in-realloc");
+          return "Realloc(" + std::to_string(old.size) + "->" + std::to_string(n) + ") refused by the base allocator";
+        }
         if (n == 0) {
           if (p) return "!Realloc(p, old, 0) returned a block";
           // the block is given up by the caller; it stays reserved inside the pool
